@@ -16,6 +16,7 @@ Static clauses decided (necessary conditions of C01; the SQL/Python equivalence 
            translators, every default operator of Monad, the unknown-symbol branch of SQLBuilder.__call__, the JSON_*/ARRAY_*
            defaults of the base builder) end in throw/raise on every path.
  SLICE     string slicing: explicit versus omitted bounds (shared with C25).
+ LEX       tuple comparisons expanded for dialects without row values compare every component but the last strictly.
  INCLUDED  the clauses of C03 (decompiled tree), C04 (outer-scope expressions), C24 (query methods), C25 (string slicing) and C29 (JSON and
            array operations) are necessary conditions of C01 as well and are evaluated under C01 too (rule ids keep their own prefix).
  FIXED     value-dependent translation is recorded on the root translator (shared with C05), otherwise a cached translation
@@ -194,9 +195,59 @@ def run(ctx):
     # ---------------------------------------------------------------- SLICE / FIXED (shared)
     C05.fixed_rule(ctx, prefix='C01-FIXED')
     C05.embedded_rule(ctx, prefix='C01-FIXED')
+    # ---------------------------------------------------------------- LEX
+    # tuple comparisons on dialects without row values are expanded lexicographically: (a1..an) OP (b1..bn) = OR_i (a1=b1 and .. a(i-1)=b(i-1) and
+    # ai OP_i bi).  For <= and >= only the LAST component may use the non-strict operator; a non-strict operator at an earlier position makes
+    # (1, 1) >= (1, 2) true.  The operator expression of the expansion loop is evaluated for every (op, position) with a small constant evaluator.
+    cm = repo.fn(ST, 'CmpMonad.getsql')
+    loops = [l for l in walk_no_nested(cm.node) if isinstance(l, ast.For) and isinstance(l.iter, ast.Call) and dotted(l.iter.func) == 'range' and norm(l.iter.args[0]) == 'size']
+    ctx.need(len(loops) == 1, 'C01-LEX: lexicographic expansion loop not found in CmpMonad.getsql')
+    L = loops[0]; iv = L.target.id
+    keys = [x.slice for st in L.body for x in ast.walk(st) if isinstance(x, ast.Subscript) and dotted(x.value) == 'cmp_ops' and isinstance(x.ctx, ast.Load)]
+    ctx.need(bool(keys), 'C01-LEX: cmp_ops[...] not used in the expansion loop')
+    local_defs = {}
+    for st in walk_no_nested(cm.node):
+        if isinstance(st, ast.Assign) and len(st.targets) == 1 and isinstance(st.targets[0], ast.Name): local_defs.setdefault(st.targets[0].id, []).append(st.value)
+    def cev(e, env, depth=0):
+        if isinstance(e, ast.Constant): return e.value
+        if isinstance(e, ast.Name):
+            if e.id in env: return env[e.id]
+            if len(local_defs.get(e.id, ())) == 1 and depth < 4: return cev(local_defs[e.id][0], env, depth + 1)
+            raise AnalysisError('C01-LEX: cannot evaluate name %s' % e.id)
+        if isinstance(e, ast.IfExp): return cev(e.body if cev(e.test, env, depth) else e.orelse, env, depth)
+        if isinstance(e, ast.Subscript):
+            base = cev(e.value, env, depth); idx = cev(e.slice, env, depth)
+            return base[idx]
+        if isinstance(e, ast.Dict): return {cev(k, env, depth): cev(v, env, depth) for k, v in zip(e.keys, e.values)}
+        if isinstance(e, ast.Call) and isinstance(e.func, ast.Attribute) and e.func.attr == 'get' and len(e.args) in (1, 2):
+            d = cev(e.func.value, env, depth); k = cev(e.args[0], env, depth)
+            return d.get(k, cev(e.args[1], env, depth) if len(e.args) == 2 else None)
+        if isinstance(e, ast.Call) and isinstance(e.func, ast.Attribute) and e.func.attr in ('rstrip', 'strip', 'replace') and all(isinstance(a, ast.Constant) for a in e.args):
+            return getattr(cev(e.func.value, env, depth), e.func.attr)(*[a.value for a in e.args])
+        if isinstance(e, ast.BinOp) and isinstance(e.op, (ast.Add, ast.Sub)):
+            l, r = cev(e.left, env, depth), cev(e.right, env, depth); return l + r if isinstance(e.op, ast.Add) else l - r
+        if isinstance(e, ast.Compare) and len(e.ops) == 1:
+            l, r = cev(e.left, env, depth), cev(e.comparators[0], env, depth)
+            return {ast.Eq: l == r, ast.NotEq: l != r, ast.Lt: l < r, ast.LtE: l <= r, ast.Gt: l > r, ast.GtE: l >= r, ast.In: l in r if hasattr(r, '__contains__') else False}[type(e.ops[0])]
+        if isinstance(e, ast.Tuple): return tuple(cev(x, env, depth) for x in e.elts)
+        if isinstance(e, ast.BoolOp):
+            vs = [cev(v, env, depth) for v in e.values]; return all(vs) if isinstance(e.op, ast.And) else any(vs)
+        if isinstance(e, ast.UnaryOp) and isinstance(e.op, ast.Not): return not cev(e.operand, env, depth)
+        raise AnalysisError('C01-LEX: cannot evaluate `%s`' % norm(e))
+    for k in keys:
+        bad = []
+        for op_ in ('<', '<=', '>', '>='):
+            for size_, i_ in ((2, 0), (2, 1), (3, 0), (3, 1), (3, 2)):
+                got = cev(k, {'op': op_, iv: i_, 'size': size_})
+                want = op_ if i_ == size_ - 1 else op_[0]
+                if got != want: bad.append('%s at position %d of %d -> %s (must be %s)' % (op_, i_ + 1, size_, got, want))
+        ctx.ob('C01-LEX.only-the-last-component-may-be-non-strict', cm, k, not bad,
+               '' if not bad else 'the lexicographic expansion of a tuple comparison uses %s: with a non-strict operator before the last component a tuple that is smaller in a '
+               'later component still compares greater-or-equal, e.g. (1, 1) >= (1, 2)' % '; '.join(bad[:3]), node=k, expected='strict operator for every component but the last')
 
 
 MUTANTS = [
+    dict(id='C01-lx1', file='pony/orm/sqltranslation.py', fn='CmpMonad.getsql', old="clause.append([ cmp_ops[op if i == size - 1 else strict_op], left_sql[i], right_sql[i] ])", new="clause.append([ cmp_ops[op], left_sql[i], right_sql[i] ])", expect='C01-LEX'),
     dict(id='C01-m1', file='pony/orm/sqltranslation.py', fn='NumericMixin.negate', old="result_sql = [ 'NOT', [ 'COALESCE', sql, [ 'VALUE', False ] ] ]", new="result_sql = [ 'NOT', [ 'COALESCE', sql, [ 'VALUE', True ] ] ]", expect='C01-NULLTRUTH'),
     dict(id='C01-m2', file='pony/orm/sqltranslation.py', fn='StringMixin.negate', old="                    result_sql = [ 'OR', result_sql, [ 'IS_NULL', sql ] ]\n                else:\n                    result_sql = [ 'EQ', [ 'COALESCE', sql, [ 'VALUE', '' ] ], [ 'VALUE', '' ]]",
          new="                    pass\n                else:\n                    result_sql = [ 'EQ', [ 'COALESCE', sql, [ 'VALUE', '' ] ], [ 'VALUE', '' ]]", expect='C01-NULLTRUTH'),
